@@ -348,7 +348,7 @@ def r3_links_to_visible(ctx, rep):
             if key in seen:
                 continue
             seen.add(key)
-            m = re.search(r"([\w.\[\]*]+)\.get_url\(\)", o.src)
+            m = re.search(r"([\w.\[\]*]+)\.get_url\(\)", o.src) or re.search(r"([\w.\[\]*]+)\.get_url\(\)", o.sym)
             target = m.group(1) if m else o.src
             conds = " & ".join(c[0] for c in o.conds if c[1])
             rawconds = " & ".join(c09.sym(c[2]) for c in o.conds if c[1])
